@@ -657,9 +657,21 @@ def _install_script(script, gap):
                 continue
             seen.add(key)
             out.append(key)
+        # a "twin": the same alleles once more, with a novel core variant flagged (the major model tells such
+        # solutions apart by their novel variants)
+        from aldy.gene import Mutation
+        twins = []
+        if out and rng.random() < 0.35:
+            key = rng.choice(out)
+            carried = {m for a in key for m in gene.alleles[a].func_muts}
+            novel = sorted(Mutation(p_, o_) for (p_, o_) in gene.mutations
+                           if Mutation(p_, o_) not in carried and gene.is_functional(Mutation(p_, o_), infer=False))
+            if novel:
+                twins.append((key, [rng.choice(novel)]))
+        cands = [(key, []) for key in out] + twins
         return [MajorSolution(score=sc, solution=Counter(SolvedAllele(gene, major=a) for a in key),
-                              cn_solution=cn_solution, added=[])
-                for key, sc in zip(out, scores(rng, len(out)))]
+                              cn_solution=cn_solution, added=list(add))
+                for (key, add), sc in zip(cands, scores(rng, len(cands)))]
 
     def minor_stub(gene, coverage, major_sol, alleles_list, mutations, solver, max_solutions=1):
         rng = random.Random(f"{seed}:minor:{counter['minor']}")
